@@ -35,8 +35,16 @@ pub fn run() {
         ));
         out.flush();
         for line in std::io::stdin().lock().lines() {
-            if line.unwrap().trim() == "quit" {
+            let line = line.unwrap();
+            if line.trim() == "quit" {
                 break;
+            }
+            if line.trim() == "cancel" {
+                // the agent's shutdown signal, with the process staying for a while as it does while other tasks wind down
+                shared_state.cancel_cancellation_token();
+                tokio::time::sleep(std::time::Duration::from_millis(3000)).await;
+                out.line("cancelled");
+                out.flush();
             }
         }
         shared_state.cancel_cancellation_token();
